@@ -63,6 +63,7 @@ def handle (line : String) : String :=
       | "gnpstat" => "m.none=0"
       | "xml" => run handleXml
       | "par" => "m.build=0"
+      | "xmlbig" => "m.build=0"
       | "degen" => run handleDegen
       | "esc" => run handleEsc
       | _ => "bad-request command"
